@@ -2,8 +2,8 @@ import Irismod.Props.C13_Random
 open Irismod Irismod.Random Irismod.Props.C18
 #print axioms request_enqueued
 #print axioms request_due_height
-#print axioms queueInvStepAllIntervals_false
-#print axioms queueInv_step_partial
+#print axioms overflowing_interval_rejected
+#print axioms queueInv_step
 #print axioms queueInv_reachable
 #print axioms queueInv_init
 #print axioms no_stale_entries
